@@ -173,3 +173,44 @@ MUTANTS += [
     ("bcrypt: truncation policy also on verify", B, "        if new:\n            cls._check_truncate_policy(secret)\n", "        cls._check_truncate_policy(secret)\n", "refute"),
     ("bcrypt: wraparound workaround cuts at 71", B, "                secret = secret[:72]\n\n        # special case handling", "                secret = secret[:71]\n\n        # special case handling", "refute"),
 ]
+
+# ---- bcrypt: the legacy $2$ variant (key cycled WITHOUT the NUL terminator) is emulated by repeating the password to 72 bytes -------
+REP72 = z3.Function("password cycled to 72 bytes", z3.StringSort(), z3.StringSort())
+
+
+def _rep_stub(name):
+    def call(it, args, kwargs):
+        r = it.resolve(args[1])
+        if r != 72:
+            from pyvc.values import Unsupported
+            raise Unsupported(f"{name} to {r!r} bytes")
+        from pyvc.values import SStr as _S
+        return _S(REP72(it.to_z3(args[0])), "bytes")
+
+    return SStub(call, name, trusted=f"{name}(s, 72): s cycled to at least 72 bytes (bcrypt reads 72)")
+
+
+bcrypt_2_contract = Contract(
+    "bcrypt._norm_digest_args[$2$]", f"{B}::_BcryptCommon._norm_digest_args",
+    params={
+        "cls": Obj(cls=(B, "_BcryptCommon"), is_class=True, fields={
+            "_require_valid_utf8_bytes": Bool(), "_has_2a_wraparound_bug": Const(False), "_lacks_2b_support": Bool(), "_lacks_2y_support": Bool(),
+            "_lacks_20_support": Bool(), "_fallback_ident": Union(Const("$2a$"), Const("$2b$")), "truncate_size": 72, "truncate_error": Const(False), "name": "bcrypt"}),
+        "secret": Bytes(), "ident": Const("$2$"), "new": Const(False),
+    },
+    globals={"utf8_truncate": _prefix_preserving("utf8_truncate"), "utf8_repeat_string": _rep_stub("utf8_repeat_string"), "repeat_string": _rep_stub("repeat_string")},
+    raises={"PasswordSizeError": "len(secret) > 4096", "PasswordValueError": "b'\\x00' in secret"},
+    ensures=[
+        ("a backend without native $2$ support gets the password cycled to 72 bytes -- for EVERY non-empty password -- under the fallback ident; a native backend gets it unchanged",
+         lambda it, env: z3.And(
+             z3.Implies(z3.And(it.to_zbool(it.truth(it.resolve(env.lookup("cls")).fields["_lacks_20_support"])), z3.Length(it.to_z3(env.lookup("secret"))) > 0),
+                        it.to_z3(it.static_items_req(it.resolve(env.lookup("result")))[0]) == REP72(it.to_z3(env.lookup("secret")))),
+             z3.Implies(z3.Not(it.to_zbool(it.truth(it.resolve(env.lookup("cls")).fields["_lacks_20_support"]))),
+                        it.to_z3(it.static_items_req(it.resolve(env.lookup("result")))[0]) == it.to_z3(env.lookup("secret"))))),
+        ("ident handed to the backend", "result[1] == (cls._fallback_ident if cls._lacks_20_support else '$2$')"),
+    ],
+    prune_timeout_ms=80,
+    descr="ident $2$; every bytes password; backend with / without native support",
+)
+CONTRACTS.append(bcrypt_2_contract)
+MUTANTS.append(("bcrypt $2$: passwords of 56..71 bytes are not cycled", B, "                if secret:\n                    if require_valid_utf8_bytes:", "                if secret and len(secret) < 56:\n                    if require_valid_utf8_bytes:", "refute", r"_norm_digest_args\[\$2\$\]"))
